@@ -30,6 +30,55 @@ pub enum Val {
     Node(Box<Val>, String),
 }
 
+/// one step from a value to a part of it
+#[derive(Clone, Debug)]
+pub enum Step {
+    Elem(usize),
+    Field(usize),
+    Some,
+    Payload,
+    First,
+    Second,
+}
+
+#[derive(Clone, Debug)]
+pub enum Action {
+    Push(Val, String),
+    SetElem(usize, Val, String),
+    SetField(usize, Val, String),
+}
+
+/// an in-place mutation of a part of a value: where, and what
+#[derive(Clone, Debug)]
+pub struct Mutation {
+    pub path: Vec<Step>,
+    pub action: Action,
+}
+
+impl Mutation {
+    /// apply to a value of the same shape (the path must exist)
+    pub fn apply(&self, val: &mut Val) {
+        let mut cur = val;
+        for st in &self.path {
+            cur = match (st, cur) {
+                (Step::Elem(i), Val::Arr(xs)) => &mut xs[*i],
+                (Step::Field(k), Val::Rec(fs)) => &mut fs[*k],
+                (Step::Some, Val::Opt(Some(x))) => x.as_mut(),
+                (Step::Payload, Val::Node(x, _)) => x.as_mut(),
+                (Step::First, Val::Tup(a, _)) => a.as_mut(),
+                (Step::Second, Val::Tup(_, b)) => b.as_mut(),
+                _ => return,
+            };
+        }
+        match (&self.action, cur) {
+            (Action::Push(v, _), Val::Arr(xs)) => xs.push(v.clone()),
+            (Action::SetElem(i, v, _), Val::Arr(xs)) => xs[*i] = v.clone(),
+            (Action::SetField(k, v, _), Val::Rec(fs)) => fs[*k] = v.clone(),
+            _ => {}
+        }
+    }
+}
+
 pub struct Gen {
     next_id: usize,
     next_fn: usize,
@@ -241,102 +290,132 @@ impl Gen {
     }
 
     /// Picks a mutable place inside `val` (an array or a struct, possibly behind options, enum
-    /// payloads, tuple components, array elements and struct fields), mutates the model there and
-    /// emits `fn mutate_<k>(x: T)` doing the same in Abra. Returns the function name, or None if
-    /// the value (as opposed to its type) has no reachable mutable place (e.g. behind a `none`).
-    pub fn mutate_fn(&mut self, rng: &mut Rng, ty: &Ty, val: &mut Val, tag: &str) -> Option<String> {
-        let mut uniq = 0usize;
-        let body = self.mutate_code(rng, ty, val, "x", tag, 1, &mut uniq)?;
-        let k = self.next_fn;
-        self.next_fn += 1;
-        let name = format!("mutate_{k}");
-        self.decls.push_str(&format!("fn {name}(x: {}) {{\n{body}}}\n", ty.name()));
-        Some(name)
+    /// payloads, tuple components, array elements and struct fields) and what to do there.
+    /// Returns None if the value (as opposed to its type) has no reachable mutable place
+    /// (e.g. everything mutable is behind a `none`).
+    pub fn plan_mutation(&mut self, rng: &mut Rng, ty: &Ty, val: &Val, tag: &str) -> Option<Mutation> {
+        let mut path = vec![];
+        let action = self.plan(rng, ty, val, tag, &mut path)?;
+        Some(Mutation { path, action })
     }
 
-    fn mutate_code(
-        &mut self,
-        rng: &mut Rng,
-        ty: &Ty,
-        val: &mut Val,
-        expr: &str,
-        tag: &str,
-        ind: usize,
-        uniq: &mut usize,
-    ) -> Option<String> {
-        let pad = "    ".repeat(ind);
-        *uniq += 1;
-        let u = *uniq;
+    fn plan(&mut self, rng: &mut Rng, ty: &Ty, val: &Val, tag: &str, path: &mut Vec<Step>) -> Option<Action> {
         match (ty, val) {
             (Ty::Int, _) | (Ty::Str, _) => None,
             (Ty::Arr(t), Val::Arr(items)) => {
-                // mutate here, or descend into an element
-                let descend = t.has_mutable() && !items.is_empty() && rng.chance(1, 2);
-                if descend {
+                if t.has_mutable() && !items.is_empty() && rng.chance(1, 2) {
                     let i = rng.below(items.len() as u64) as usize;
-                    let code = self.mutate_code(rng, t, &mut items[i], &format!("{expr}[{i}]"), tag, ind, uniq);
-                    if code.is_some() {
-                        return code;
+                    path.push(Step::Elem(i));
+                    if let Some(a) = self.plan(rng, t, &items[i], tag, path) {
+                        return Some(a);
                     }
+                    path.pop();
                 }
                 let (nv, ne) = self.tagged_value(rng, t, tag);
                 if !items.is_empty() && rng.chance(1, 2) {
-                    let i = rng.below(items.len() as u64) as usize;
-                    items[i] = nv;
-                    Some(format!("{pad}{expr}[{i}] = {ne}\n"))
+                    Some(Action::SetElem(rng.below(items.len() as u64) as usize, nv, ne))
                 } else {
-                    items.push(nv);
-                    Some(format!("{pad}{expr}.push({ne})\n"))
+                    Some(Action::Push(nv, ne))
                 }
             }
             (Ty::Rec(_, fields), Val::Rec(vals)) => {
                 let k = rng.below(fields.len() as u64) as usize;
                 if fields[k].has_mutable() && rng.chance(1, 2) {
-                    let code = self.mutate_code(rng, &fields[k], &mut vals[k], &format!("{expr}.f{k}"), tag, ind, uniq);
-                    if code.is_some() {
-                        return code;
+                    path.push(Step::Field(k));
+                    if let Some(a) = self.plan(rng, &fields[k], &vals[k], tag, path) {
+                        return Some(a);
                     }
+                    path.pop();
                 }
                 let (nv, ne) = self.tagged_value(rng, &fields[k], tag);
-                vals[k] = nv;
-                Some(format!("{pad}{expr}.f{k} = {ne}\n"))
+                Some(Action::SetField(k, nv, ne))
             }
             (Ty::Opt(t), Val::Opt(Some(inner))) => {
-                let code = self.mutate_code(rng, t, inner, &format!("o{u}"), tag, ind + 2, uniq)?;
-                Some(format!(
-                    "{pad}match {expr} {{\n{pad}    .some(o{u}) -> {{\n{code}{pad}    }},\n{pad}    .none -> {{}}\n{pad}}}\n"
-                ))
+                path.push(Step::Some);
+                let a = self.plan(rng, t, inner, tag, path);
+                if a.is_none() {
+                    path.pop();
+                }
+                a
             }
-            (Ty::Opt(_), _) => None,
-            (Ty::Sum(id, t), Val::Node(inner, _)) => {
-                let code = self.mutate_code(rng, t, inner, &format!("p{u}"), tag, ind + 2, uniq)?;
-                Some(format!(
-                    "{pad}match {expr} {{\n{pad}    .Nd{id}(p{u}, _) -> {{\n{code}{pad}    }},\n{pad}    .Lf{id}(_) -> {{}}\n{pad}}}\n"
-                ))
+            (Ty::Sum(_, t), Val::Node(inner, _)) => {
+                path.push(Step::Payload);
+                let a = self.plan(rng, t, inner, tag, path);
+                if a.is_none() {
+                    path.pop();
+                }
+                a
             }
-            (Ty::Sum(..), _) => None,
             (Ty::Tup(a, b), Val::Tup(va, vb)) => {
                 let first = a.has_mutable() && (!b.has_mutable() || rng.chance(1, 2));
-                let code = if first {
-                    self.mutate_code(rng, a, va, &format!("ta{u}"), tag, ind, uniq)
+                let order: [(Step, &Ty, &Val); 2] = if first {
+                    [(Step::First, a.as_ref(), va.as_ref()), (Step::Second, b.as_ref(), vb.as_ref())]
                 } else {
-                    self.mutate_code(rng, b, vb, &format!("tb{u}"), tag, ind, uniq)
+                    [(Step::Second, b.as_ref(), vb.as_ref()), (Step::First, a.as_ref(), va.as_ref())]
                 };
-                let code = match code {
-                    Some(c) => c,
-                    None => {
-                        // try the other component
-                        if first {
-                            self.mutate_code(rng, b, vb, &format!("tb{u}"), tag, ind, uniq)?
-                        } else {
-                            self.mutate_code(rng, a, va, &format!("ta{u}"), tag, ind, uniq)?
-                        }
+                for (st, t, v) in order {
+                    path.push(st);
+                    if let Some(act) = self.plan(rng, t, v, tag, path) {
+                        return Some(act);
                     }
-                };
-                Some(format!("{pad}let (ta{u}, tb{u}) = {expr}\n{code}"))
+                    path.pop();
+                }
+                None
             }
             _ => None,
         }
+    }
+
+    /// emits `fn mutate_<k>(x: T)` performing `m` on its argument; returns the function name
+    pub fn mutation_fn(&mut self, ty: &Ty, m: &Mutation) -> String {
+        let mut uniq = 0usize;
+        let body = Self::render(ty, &m.path, &m.action, "x", 1, &mut uniq);
+        let k = self.next_fn;
+        self.next_fn += 1;
+        let name = format!("mutate_{k}");
+        self.decls.push_str(&format!("fn {name}(x: {}) {{\n{body}}}\n", ty.name()));
+        name
+    }
+
+    fn render(ty: &Ty, path: &[Step], action: &Action, expr: &str, ind: usize, uniq: &mut usize) -> String {
+        let pad = "    ".repeat(ind);
+        *uniq += 1;
+        let u = *uniq;
+        let Some((step, rest)) = path.split_first() else {
+            return match action {
+                Action::Push(_, e) => format!("{pad}{expr}.push({e})\n"),
+                Action::SetElem(i, _, e) => format!("{pad}{expr}[{i}] = {e}\n"),
+                Action::SetField(k, _, e) => format!("{pad}{expr}.f{k} = {e}\n"),
+            };
+        };
+        match (step, ty) {
+            (Step::Elem(i), Ty::Arr(t)) => Self::render(t, rest, action, &format!("{expr}[{i}]"), ind, uniq),
+            (Step::Field(k), Ty::Rec(_, fields)) => Self::render(&fields[*k], rest, action, &format!("{expr}.f{k}"), ind, uniq),
+            (Step::Some, Ty::Opt(t)) => {
+                let code = Self::render(t, rest, action, &format!("o{u}"), ind + 2, uniq);
+                format!("{pad}match {expr} {{\n{pad}    .some(o{u}) -> {{\n{code}{pad}    }},\n{pad}    .none -> {{}}\n{pad}}}\n")
+            }
+            (Step::Payload, Ty::Sum(id, t)) => {
+                let code = Self::render(t, rest, action, &format!("p{u}"), ind + 2, uniq);
+                format!("{pad}match {expr} {{\n{pad}    .Nd{id}(p{u}, _) -> {{\n{code}{pad}    }},\n{pad}    .Lf{id}(_) -> {{}}\n{pad}}}\n")
+            }
+            (Step::First, Ty::Tup(a, _)) => {
+                let code = Self::render(a, rest, action, &format!("ta{u}"), ind, uniq);
+                format!("{pad}let (ta{u}, tb{u}) = {expr}\n{code}")
+            }
+            (Step::Second, Ty::Tup(_, b)) => {
+                let code = Self::render(b, rest, action, &format!("tb{u}"), ind, uniq);
+                format!("{pad}let (ta{u}, tb{u}) = {expr}\n{code}")
+            }
+            _ => String::new(),
+        }
+    }
+
+    /// plan a mutation, apply it to the model value and emit the Abra function doing the same
+    pub fn mutate_fn(&mut self, rng: &mut Rng, ty: &Ty, val: &mut Val, tag: &str) -> Option<String> {
+        let m = self.plan_mutation(rng, ty, val, tag)?;
+        m.apply(val);
+        Some(self.mutation_fn(ty, &m))
     }
 
     /// a fresh value whose strings / ints are recognisably from `tag`
